@@ -375,3 +375,278 @@ T("c17-twin-continue-style", "C17", "_utils.py", "early-continue instead of else
 
             copied[key] = value
 '''))
+
+
+# =============================================================================== C01
+_RUNNER_SIG = '''    async def _run_teardown_callbacks(
+        self,
+        exc_type: type[BaseException] | None,
+        exc_val: BaseException | None,
+        exc_tb: TracebackType | None,
+    ) -> None:
+        # The exception that ended the context block (not whatever exception the
+        # surrounding code may happen to be handling)
+        original_exception = exc_val
+'''
+M("c01-f8-inverse", "C01", "_context.py", "C01.R4", "exception argument taken from sys.exc_info() (pre-fix F8)",
+  (_RUNNER_SIG, '''    async def _run_teardown_callbacks(self) -> None:
+        original_exception = sys.exc_info()[1]
+'''),
+  ("                exit_stack.push_async_exit(self._run_teardown_callbacks)\n", "                exit_stack.push_async_callback(self._run_teardown_callbacks)\n"))
+M("c01-catch-exception-only", "C01", "_context.py", "C01.R2", "teardown loop catches only Exception",
+  ("            except BaseException as e:\n                exceptions.append(e)\n", "            except Exception as e:\n                exceptions.append(e)\n"))
+M("c01-snapshot-iteration", "C01", "_context.py", "C01.R1", "iterate a reversed snapshot: callbacks added during teardown are dropped",
+  ("        while self._teardown_callbacks:\n            callback, pass_exception = self._teardown_callbacks.pop()\n",
+   "        for callback, pass_exception in reversed(list(self._teardown_callbacks)):\n"))
+M("c01-fifo-pop", "C01", "_context.py", "C01.R1", "pop from the front: FIFO order",
+  ("self._teardown_callbacks.pop()\n", "self._teardown_callbacks.pop(0)\n"))
+M("c01-pass-last-exception", "C01", "_context.py", "C01.R4", "a later callback receives an earlier callback's exception",
+  ("            except BaseException as e:\n                exceptions.append(e)\n", "            except BaseException as e:\n                exceptions.append(e)\n                original_exception = e\n"))
+M("c01-insert-front", "C01", "_context.py", "C01.R7", "registration inserts at the front of the stack",
+  ("        self._teardown_callbacks.append((callback, pass_exception))\n", "        self._teardown_callbacks.insert(0, (callback, pass_exception))\n"))
+M("c01-flag-dropped", "C01", "_context.py", "C01.R7", "registration forgets the pass_exception flag",
+  ("        self._teardown_callbacks.append((callback, pass_exception))\n", "        self._teardown_callbacks.append((callback, False))\n"))
+M("c01-no-await", "C01", "_context.py", "C01.R3", "awaitable results are not awaited in the loop",
+  ("                if isawaitable(retval):\n                    await retval\n            except BaseException as e:", "                if isawaitable(retval):\n                    pending.append(retval)\n            except BaseException as e:"),
+  ("        exceptions: list[BaseException] = []\n        while self._teardown_callbacks:", "        exceptions: list[BaseException] = []\n        pending: list[Any] = []\n        while self._teardown_callbacks:"))
+M("c01-exceptiongroup", "C01", "_context.py", "C01.R5", "ExceptionGroup cannot hold BaseException members",
+  ("            excgrp = BaseExceptionGroup(\n", "            excgrp = ExceptionGroup(\n"))
+M("c01-raise-first-only", "C01", "_context.py", "C01.R5", "only the first callback exception is re-raised",
+  ('''            excgrp = BaseExceptionGroup(
+                "Exceptions were raised during context teardown", exceptions
+            )
+            del exceptions
+            raise excgrp from original_exception''', "            raise exceptions[0] from original_exception"))
+M("c01-runner-not-last", "C01", "_context.py", "C01.R6", "context-var reset registered after the teardown runner",
+  ('''                _reset_token = _current_context.set(self)
+                exit_stack.callback(_current_context.reset, _reset_token)
+
+''', '''                _reset_token = _current_context.set(self)
+
+'''),
+  ("                exit_stack.push_async_exit(self._run_teardown_callbacks)\n", "                exit_stack.push_async_exit(self._run_teardown_callbacks)\n                exit_stack.callback(_current_context.reset, _reset_token)\n"))
+M("c01-aexit-drops-exc", "C01", "_context.py", "C01.R6", "__aexit__ does not forward the exception to the exit stack",
+  ("            retval = await self._exit_stack.__aexit__(exc_type, exc_val, exc_tb)\n", "            retval = await self._exit_stack.__aexit__(None, None, None)\n"))
+M("c01-closed-not-in-finally", "C01", "_context.py", ["C01.R9"], "closed state not set when teardown raises",
+  ('''        try:
+            retval = await self._exit_stack.__aexit__(exc_type, exc_val, exc_tb)
+        finally:
+            self._state = ContextState.closed
+''', '''        retval = await self._exit_stack.__aexit__(exc_type, exc_val, exc_tb)
+        self._state = ContextState.closed
+'''))
+M("c01-context-teardown-flag", "C01", "_context.py", "C01.R8", "@context_teardown registers without pass_exception",
+  ("            ctx.add_teardown_callback(teardown_callback, True)\n", "            ctx.add_teardown_callback(lambda: teardown_callback(None))\n"))
+M("c01-tg-outside-coalesce", "C01", "_context.py", "C01.R6", "root task group entered outside coalesce_exceptions",
+  ('''                    await exit_stack.enter_async_context(coalesce_exceptions())
+                    self._task_group = await exit_stack.enter_async_context(
+                        create_task_group()
+                    )
+''', '''                    self._task_group = await exit_stack.enter_async_context(
+                        create_task_group()
+                    )
+                    await exit_stack.enter_async_context(coalesce_exceptions())
+'''))
+T("c01-twin-while-true-break", "C01", "_context.py", "while True / if not stack: break",
+  ("        while self._teardown_callbacks:\n            callback, pass_exception = self._teardown_callbacks.pop()\n",
+   "        while True:\n            if not self._teardown_callbacks:\n                break\n\n            callback, pass_exception = self._teardown_callbacks.pop()\n"))
+T("c01-twin-pop-minus-one", "C01", "_context.py", "explicit pop(-1)",
+  ("self._teardown_callbacks.pop()\n", "self._teardown_callbacks.pop(-1)\n"))
+T("c01-twin-rename", "C01", "_context.py", "rename locals of the runner",
+  ("original_exception", "block_exception"), count=None)
+
+# =============================================================================== C02
+M("c02-alias-factories", "C02", "_context.py", "C02.R1", "child shares the parent's factory table",
+  ("            self._resource_factories = self._parent._resource_factories.copy()\n", "            self._resource_factories = self._parent._resource_factories\n"))
+M("c02-write-parent", "C02", "_context.py", "C02.R2", "add_resource also publishes into the parent",
+  ('''        for type_ in types_:
+            self._resources[(type_, name)] = container
+''', '''        for type_ in types_:
+            self._resources[(type_, name)] = container
+            if self._parent is not None:
+                self._parent._resources.setdefault((type_, name), container)
+'''))
+M("c02-lookup-walks-up", "C02", "_context.py", "C02.R3", "get_resources also looks into the parent at lookup time",
+  ('''        return {
+            container.name: container.value
+            for container in self._resources.values()
+            if type in container.types
+        }
+''', '''        found = {
+            container.name: container.value
+            for container in self._resources.values()
+            if type in container.types
+        }
+        if self._parent is not None:
+            for container in self._parent._resources.values():
+                if type in container.types:
+                    found.setdefault(container.name, container.value)
+
+        return found
+'''))
+M("c02-shortcut-drops-name", "C02", "_context.py", "C02.R4", "module-level get_resource_nowait ignores the name",
+  ("    return current_context().get_resource_nowait(type, name, optional=optional)\n", "    return current_context().get_resource_nowait(type, optional=optional)\n"))
+M("c02-wrapper-drops-description", "C02", "_component.py", "C02.R4", "ComponentContext.add_resource_factory drops the description",
+  ("            factory_callback, name, types=types, description=description\n        )\n        logger.debug(\n            \"%s added a resource factory (%s)\",", "            factory_callback, name, types=types\n        )\n        logger.debug(\n            \"%s added a resource factory (%s)\","))
+M("c02-parent-current-first", "C02", "_context.py", "C02.R5", "the current context wins over the explicit parent",
+  ("        self._parent = parent or _current_context.get(None)\n", "        self._parent = _current_context.get(None) or parent\n"))
+M("c02-no-component-skip", "C02", "_context.py", "C02.R5", "component contexts are not skipped as parents",
+  ('''            while isinstance(self._parent, ComponentContext):
+                self._parent = self._parent._context
+
+''', ""))
+M("c02-inherit-generated", "C02", "_context.py", "C02.R6", "children inherit generated resources",
+  ('''            self._resources = {
+                key: res
+                for key, res in self._parent._resources.items()
+                if not res.is_generated
+            }''', "            self._resources = self._parent._resources.copy()"))
+T("c02-twin-init-helper", "C02", "_context.py", "table inheritance extracted into a helper called from __init__",
+  ('''            self._resources = {
+                key: res
+                for key, res in self._parent._resources.items()
+                if not res.is_generated
+            }
+            self._resource_factories = self._parent._resource_factories.copy()
+            self._task_group = self._parent._task_group
+        else:
+            self._resources = {}
+            self._resource_factories = {}
+''', '''            self._inherit_tables(self._parent)
+            self._task_group = self._parent._task_group
+        else:
+            self._resources = {}
+            self._resource_factories = {}
+
+    def _inherit_tables(self, parent: Context) -> None:
+        self._resources = {
+            key: res for key, res in parent._resources.items() if not res.is_generated
+        }
+        self._resource_factories = dict(parent._resource_factories)
+'''))
+T("c02-twin-dict-copy", "C02", "_context.py", "dict(...) instead of .copy()",
+  ("self._parent._resource_factories.copy()", "dict(self._parent._resource_factories)"))
+
+# =============================================================================== C12
+M("c12-set-parent-on-exit", "C12", "_context.py", "C12.R2", "on exit the parent is installed instead of resetting the token",
+  ("                exit_stack.callback(_current_context.reset, _reset_token)\n", "                exit_stack.callback(_current_context.set, self._parent)\n"))
+M("c12-no-restore", "C12", "_context.py", "C12.R2", "the previous context is never restored",
+  ("                exit_stack.callback(_current_context.reset, _reset_token)\n", ""))
+M("c12-second-set-site", "C12", "_context.py", "C12.R1", "current_context() caches into the variable",
+  ('''    ctx = _current_context.get()
+    if ctx is None:
+        raise NoCurrentContext
+''', '''    ctx = _current_context.get()
+    if ctx is None:
+        raise NoCurrentContext
+
+    _current_context.set(ctx)
+'''))
+M("c12-restore-before-teardown", "C12", "_context.py", "C12.R3", "variable restored before teardown callbacks run",
+  ('''                _reset_token = _current_context.set(self)
+                exit_stack.callback(_current_context.reset, _reset_token)
+
+''', '''                _reset_token = _current_context.set(self)
+
+'''),
+  ("                exit_stack.push_async_exit(self._run_teardown_callbacks)\n", "                exit_stack.push_async_exit(self._run_teardown_callbacks)\n                exit_stack.callback(_current_context.reset, _reset_token)\n"))
+M("c12-task-ctx-implicit-parent", "C12", "_concurrent.py", "C12.R5", "task contexts inherit from whoever is current at spawn",
+  ("            async with Context(ctx):\n", "            async with Context():\n"))
+M("c12-starter-no-ctx", "C12", "_component.py", "C12.R6", "component phases do not run inside the component context",
+  ("    async with context:\n        # Call prepare() on the component itself", "    if True:\n        # Call prepare() on the component itself"))
+
+# =============================================================================== C13
+for _op, _old, _new in (
+    ("add_resource", "        self._ensure_state(ContextState.open, ContextState.closing)\n        types_: tuple[type, ...]", "        self._ensure_state(ContextState.open)\n        types_: tuple[type, ...]"),
+    ("add_resource_factory", "        self._ensure_state(ContextState.open)\n        if not resource_name_re.fullmatch(name):", "        self._ensure_state(ContextState.open, ContextState.closing)\n        if not resource_name_re.fullmatch(name):"),
+    ("get_resource_nowait", "        self._ensure_state(ContextState.open, ContextState.closing)\n        key = (type, name)\n\n        # First check if there's already a matching resource in this context\n        resource = self._resources.get(key)", "        self._ensure_state(ContextState.open, ContextState.closing, ContextState.closed)\n        key = (type, name)\n\n        # First check if there's already a matching resource in this context\n        resource = self._resources.get(key)"),
+    ("add_teardown_callback", "        self._ensure_state(ContextState.open, ContextState.closing)\n        if not callable(callback):", "        self._ensure_state(ContextState.open)\n        if not callable(callback):"),
+    ("aenter", "        self._ensure_state(ContextState.inactive)\n", "        self._ensure_state(ContextState.inactive, ContextState.closed)\n"),
+):
+    M(f"c13-cell-{_op}", "C13", "_context.py", "C13.R1", f"guard of {_op} allows / rejects another state", (_old, _new))
+M("c13-get-resource-unguarded", "C13", "_context.py", "C13.R1", "async get_resource has no guard",
+  ("        self._ensure_state(ContextState.open, ContextState.closing)\n\n        # First check if there's already a matching resource in this context\n        key = (type, name)", "        # First check if there's already a matching resource in this context\n        key = (type, name)"))
+M("c13-guard-after-effect", "C13", "_context.py", "C13.R1", "add_teardown_callback guards after appending",
+  ('''        self._ensure_state(ContextState.open, ContextState.closing)
+        if not callable(callback):
+            raise TypeError("callback must be a callable")
+
+        self._teardown_callbacks.append((callback, pass_exception))
+''', '''        if not callable(callback):
+            raise TypeError("callback must be a callable")
+
+        self._teardown_callbacks.append((callback, pass_exception))
+        self._ensure_state(ContextState.open, ContextState.closing)
+'''))
+M("c13-closed-only-closed", "C13", "_context.py", "C13.R3", "`closed` is false during teardown",
+  ("        return self._state in (ContextState.closing, ContextState.closed)\n", "        return self._state is ContextState.closed\n"))
+M("c13-no-rollback", "C13", "_context.py", "C13.R2", "failed entry leaves the context open",
+  ("        except BaseException:\n            self._state = ContextState.inactive\n            raise\n", "        except BaseException:\n            raise\n"), control=False)
+M("c13-child-check-dropped", "C13", "_context.py", "C13.R4", "still-open child contexts are ignored",
+  ('''        if self._child_contexts:
+            raise RuntimeError(
+                f"Context stack corruption detected: context {id(self):x} still has "
+                f"{len(self._child_contexts)} active child context(s)"
+            )
+
+''', ""))
+M("c13-guard-returns-early", "C13", "_context.py", "C13.R1", "the guard lets the closing state through for everything",
+  ("        if self._state in allowed_states:\n            return\n", "        if self._state in allowed_states or self._state is ContextState.closing:\n            return\n"))
+T("c13-twin-closed-or", "C13", "_context.py", "closed written as a disjunction",
+  ("        return self._state in (ContextState.closing, ContextState.closed)\n", "        return (\n            self._state is ContextState.closing or self._state is ContextState.closed\n        )\n"))
+
+# =============================================================================== C18
+M("c18-dispatch-before-insert", "C18", "_context.py", ["C18.R1", "C18.R2"], "event dispatched before the insertion",
+  ('''        container = ResourceContainer(value, types_, name, description)
+        for type_ in types_:
+            self._resources[(type_, name)] = container
+
+        # Notify listeners that a new resource has been made available
+        self.resource_added.dispatch(ResourceEvent(types_, name, description, False))
+''', '''        # Notify listeners that a new resource has been made available
+        self.resource_added.dispatch(ResourceEvent(types_, name, description, False))
+        container = ResourceContainer(value, types_, name, description)
+        for type_ in types_:
+            self._resources[(type_, name)] = container
+'''))
+M("c18-dispatch-per-type", "C18", "_context.py", "C18.R1", "one event per type",
+  ('''        for type_ in types_:
+            self._resources[(type_, name)] = container
+
+        # Notify listeners that a new resource has been made available
+        self.resource_added.dispatch(ResourceEvent(types_, name, description, False))
+''', '''        for type_ in types_:
+            self._resources[(type_, name)] = container
+            self.resource_added.dispatch(ResourceEvent((type_,), name, description, False))
+'''))
+M("c18-dispatch-on-parent", "C18", "_context.py", "C18.R3", "factory registration announced on the parent",
+  ('''        self.resource_added.dispatch(
+            ResourceEvent(resource_types, name, description, True)
+        )
+''', '''        (self._parent or self).resource_added.dispatch(
+            ResourceEvent(resource_types, name, description, True)
+        )
+'''))
+M("c18-factory-flag", "C18", "_context.py", "C18.R4", "factory registration reported as a plain resource",
+  ("            ResourceEvent(resource_types, name, description, True)\n", "            ResourceEvent(resource_types, name, description, False)\n"))
+M("c18-generated-flag-true", "C18", "_context.py", ["C18.R4"], "generated resource reported as a factory",
+  ("                ResourceEvent(factory.types, name, factory.description, False)\n", "                ResourceEvent(factory.types, name, factory.description, True)\n"), count=2)
+M("c18-hit-dispatches", "C18", "_context.py", "C18.R2", "a plain hit dispatches an event again",
+  ('''        resource = self._resources.get(key)
+        if resource is not None:
+            return cast(T_Resource, resource.value)
+''', '''        resource = self._resources.get(key)
+        if resource is not None:
+            self.resource_added.dispatch(
+                ResourceEvent(resource.types, name, resource.description, False)
+            )
+            return cast(T_Resource, resource.value)
+'''))
+M("c18-wrapper-dispatches", "C18", "_component.py", "C18.R5", "the component wrapper announces the resource a second time",
+  ('''        logger.debug(
+            "%s added a resource (%s)",''', '''        self.resource_added.dispatch(ResourceEvent((type(value),), name, description, False))
+        logger.debug(
+            "%s added a resource (%s)",'''),
+  ("from ._context import (\n    Context,\n", "from ._context import (\n    Context,\n    ResourceEvent,\n"))
+M("c18-event-types-single", "C18", "_context.py", "C18.R4", "event carries only the first type",
+  ("        self.resource_added.dispatch(ResourceEvent(types_, name, description, False))\n", "        self.resource_added.dispatch(ResourceEvent(types_[:1], name, description, False))\n"))
